@@ -406,6 +406,8 @@ def run_case(case: dict) -> dict:
             mism = sim.objects.get("collective_mismatch")
             if mism:
                 sig, detail = _sig(case, "collective", "collective_mismatch"), f"{mism[:2]}"
+            elif errs and _degenerate_after_the_fact(case, inp, states, errs, simroot, root):
+                return dict(base, verdict="discard", detail="degenerate scene (empty centre/bin w.r.t. generated centres) or reference raises too")
             elif errs:
                 name, exc, tb = errs[0]
                 sig = _sig(case, _entry_from_tb(tb), "raises", exc=type(exc).__name__, max_workers=mwc)
@@ -433,6 +435,49 @@ def run_case(case: dict) -> dict:
         return res
     finally:
         shutil.rmtree(root, ignore_errors=True)
+
+
+def _degenerate_after_the_fact(case, inp, states, errs, simroot, root) -> bool:
+    """A rank raised.  That is not a verdict when (a) the scene turns out to have
+    a centre without objects with respect to the centres the reference catalog
+    reported (generated / data-mean centres are not known in advance), or (b) the
+    single-rank execution of the same calls on the same caches raises the same
+    exception type (DESIGN.md 2.6a)."""
+    import yaw
+    from sim import fakempi
+    from sim.scenes import strip_derived
+
+    name, exc, tb = errs[0]
+    st0 = states[0]
+    if "contains no data" in str(exc) and case["ref_mode"] != "apply" and "created.ref" not in st0:
+        # creation of a later catalog failed: check emptiness against ref's centres on disk
+        pass
+    if "contains no data" in str(exc) and case["ref_mode"] != "apply":
+        try:
+            with fakempi.single_rank():
+                cen = np.asarray(yaw.Catalog(os.path.join(simroot, "ref"), max_workers=1).get_centers().data).reshape(-1, 2)
+            for nm in ("unk", "rref", "runk"):
+                r = inp["records"][nm]
+                ids, _ = wl.nearest_center(np.deg2rad(np.column_stack([r["ra"], r["dec"]])), cen)
+                if (np.bincount(ids, minlength=len(cen)) == 0).any():
+                    return True
+        except Exception:  # noqa: BLE001
+            return False
+        return False
+    if "_measure_ops" not in tb:
+        return False
+    refroot = os.path.join(root, "ref0")
+    try:
+        shutil.copytree(simroot, refroot)
+        strip_derived(refroot, meta=False, trees=True)
+        shutil.rmtree(os.path.join(refroot, "io"), ignore_errors=True)
+        with fakempi.single_rank():
+            _measure_ops(case, refroot, {}, mw=1, io_dir=os.path.join(refroot, "io"))
+    except Exception as err2:  # noqa: BLE001
+        return type(err2).__name__ == type(exc).__name__
+    finally:
+        shutil.rmtree(refroot, ignore_errors=True)
+    return False
 
 
 def _entry_from_tb(tb: str) -> str:
